@@ -1,3 +1,5 @@
+import sys, os
+sys.path.insert(0, os.path.dirname(__file__))
 """C14 - transport parameters validated and applied as RFC 9000 specifies (decoder level)."""
 import os
 
@@ -38,5 +40,11 @@ def run(ctx):
     ctx.cov["stages"].append({"stage": "record", **{k: v for k, v in r.items() if not k.startswith("_")}})
     ctx.trace("Trace_TransportParams", tf, runs=2 * n, label="tp")
     ctx.cov["exhaustive"] = True
-    ctx.assume("decoder level only: connection-id authentication against the handshake (RFC 9000 7.3) and the use of the limits by a live connection are exercised by the end-to-end checks (C03/C04/C07), not here")
+    # applied as RFC 9000 10.1 says: with different idle timeouts on the two sides the smaller one governs both endpoints
+    # (blackhole runs: each side's idle timeout is drawn independently); the peer's advertised max_ack_delay governs the
+    # promptness of acknowledgements (decided under C08)
+    import e2e_common as E
+    traces = ctx.e2e(E.plan(ctx, [("blackhole", 10)]))
+    ctx.validate_families(traces, "Trace_Liveness", E.LIVE_KINDS)
+    ctx.assume("decoder level plus the negotiated idle timeout on live connections; connection-id authentication against the handshake (RFC 9000 7.3, e.g. a missing retry_source_connection_id after a Retry) needs a TLS provider that rewrites the peer's parameter block and is not exercised; flow-control and stream limits of live connections are decided under C03/C04/C07")
     ctx.assume("named either-verdict ranges: max_udp_payload_size > 65527, non-empty disable_active_migration, preferred_address with zero-length cid or no address, original_destination_connection_id < 8 bytes, retry_source_connection_id < 4 bytes, dc extension parameters")
